@@ -1,9 +1,9 @@
 SPECIFICATION Spec
 CONSTANTS
-  Shape = "doublefree"
+  Shape = "writes-through"
   Emit = FALSE
   Slots = {"s1", "s2"}
-  MaxSteps = 4
-  UseKinds = {"parse-window"}
+  MaxSteps = 3
+  UseKinds = {"parse-window", "scan"}
   Machine = "history"
 PROPERTIES SnapshotStable
